@@ -55,7 +55,9 @@ def ladder_spec(c):
     T0 = 360.0
     ops = []
     for i in range(k + 1):
-        ops.append({"op": "junction", "id": "s%d" % i, "pn_bar": 5.0, "tfluid_k": 330.0})
+        # supply side starts at the feed temperature: a consumer given by heat and return temperature derives its mass
+        # flow from the start temperature in sequential mode and needs start > return temperature to be calculable
+        ops.append({"op": "junction", "id": "s%d" % i, "pn_bar": 5.0, "tfluid_k": T0})
         ops.append({"op": "junction", "id": "r%d" % i, "pn_bar": 5.0, "tfluid_k": 330.0})
     p = {"op": c["pump"], "id": "cp", "return": "r0", "flow": "s0", "p_flow_bar": 6.0, "t_flow_k": T0, "type": "pt"}
     if c["pump"] == "circ_pump_mass":
